@@ -17,6 +17,8 @@ for m in muts:
     sh("git","-C",WT,"checkout","-q","--",".")
     d=sh("git","-C","/repo","diff","HEAD").stdout
     if d.strip(): subprocess.run(["git","-C",WT,"apply"],input=d,text=True)
+    for pf in [x for x in os.environ.get("MUT_PATCHES","").split(":") if x]:      # pending fix patches, in apply order
+        r0=sh("git","-C",WT,"apply",pf); assert r0.returncode==0,(pf,r0.stderr)
     p=os.path.join(WT,m["file"]); src=open(p).read(); assert src.count(m["old"])>=1, m["id"]
     open(p,"w").write(src.replace(m["old"],m["new"],1))
     res={}
@@ -24,7 +26,7 @@ for m in muts:
         t0=time.time()
         cmd=[f"{HOME}/check",prop,"--tier","quick","--seed",seed,"--scale",scale,"--jobs","8"]
         if m.get("only"): cmd+=["--only",m["only"]]
-        env=dict(os.environ,VERIF_REPO=WT,VFW_NO_EVIDENCE="1",VFW_EXTRA_KNOWN=f"{HOME}/scratch/proposed_findings_{prop}.json")
+        env=dict(os.environ,VERIF_REPO=WT,VFW_NO_EVIDENCE="1",VFW_EXTRA_KNOWN=os.environ.get("MUT_KNOWN",f"{HOME}/scratch/proposed_findings_{prop}.json"))
         r=subprocess.run(cmd,capture_output=True,text=True,env=env,cwd=HOME)
         sigs=[l.strip()[10:] for l in r.stdout.splitlines() if l.strip().startswith("violated:")]
         res[seed]={"exit":r.returncode,"wall_s":round(time.time()-t0,1),"signatures":[s.split(": ")[0] for s in sigs][:6]}
